@@ -24,15 +24,19 @@ theorem C09_fields_roundtrip (p : EntryParts) (hp : p.path ≠ [])
         trackOff := ((p.path.length + delim.length + p.sizeTxt.length + delim.length + p.pathEcc.length
                       + delim.length + p.sizeEcc.length + delim.length : Nat) : Int),
         stripped := 0 } := by
-  sorry
+  have hdrop : (genEntry p).drop marker.length =
+      p.path ++ delim ++ p.sizeTxt ++ delim ++ p.pathEcc ++ delim ++ p.sizeEcc ++ delim ++ p.track := by
+    simp only [genEntry, List.append_assoc, List.drop_left]
+  rw [hdrop]
+  exact entryFields_gen p.path p.sizeTxt p.pathEcc p.sizeEcc p.track hp h1 h2 h3 h4
 
 /-- The size text round-trips: `int(str(n)) = n` for every size. -/
 theorem C09_size_roundtrip (n : Nat) : pyInt (digitsOf n) = some (n : Int) := by
-  sorry
+  rw [pyInt_digits (digitsOf n) (digitsOf_ne_nil n) (digitsOf_digits n), dval_digitsOf]
 
 /-- the size text is digits only (so it never contains a delimiter byte) -/
 theorem C09_size_digits (n : Nat) : ∀ c ∈ digitsOf n, isDigit c = true := by
-  sorry
+  exact digitsOf_digits n
 
 /-- what the round trip needs of the codec at the intra rate -/
 structure IntraOps (O : Ops) (k mbs : Nat) : Prop where
@@ -46,7 +50,11 @@ both tools, without consulting the decoder. -/
 theorem C09_intra_roundtrip (O : Ops) (k mbs : Nat) (hO : IntraOps O k mbs) (field : Bytes) :
     correctIntraHeader O k mbs field (intraEcc O.enc k field) = { field := field, corrupted := false, corrected := true } ∧
     correctIntraWhole O k mbs field (intraEcc O.enc k field) = { field := field, corrupted := false, corrected := true } := by
-  sorry
+  unfold correctIntraHeader correctIntraWhole
+  rw [assembleHeader_clean O.enc k mbs hO.kpos hO.parity hO.encLen field,
+    assemble_clean O.enc k mbs hO.kpos hO.parity hO.encLen field,
+    fold_clean O k hO.kpos hO.accepts field]
+  exact ⟨rfl, rfl⟩
 
 /-- every intra block of the received field/parity is accepted as it is with the original bytes,
 or is repaired by the decoder to the original bytes with a parity that checks -/
@@ -63,7 +71,9 @@ theorem C09_intra_repair_header (O : Ops) (k mbs : Nat) (orig field' ecc' : Byte
     (hok : ∀ b ∈ assembleHeader k 0 mbs field'.length field' ecc' (field'.length + 1) 0 0, IntraBlockOK O k orig b) :
     (correctIntraHeader O k mbs field' ecc').field = orig ∧
     (correctIntraHeader O k mbs field' ecc').corrected = true := by
-  sorry
+  unfold correctIntraHeader
+  exact repair_of_blocks O k orig field' _ hlen hcover
+    (assembleHeader_pieces k 0 mbs field'.length field' ecc' orig _ 0 0) hok
 
 theorem C09_intra_repair_whole (O : Ops) (k mbs : Nat) (orig field' ecc' : Bytes)
     (hlen : field'.length = orig.length)
@@ -71,6 +81,8 @@ theorem C09_intra_repair_whole (O : Ops) (k mbs : Nat) (orig field' ecc' : Bytes
     (hok : ∀ b ∈ assemble (fun _ => k) 0 mbs field' ecc' (field'.length + 1) 0 0, IntraBlockOK O k orig b) :
     (correctIntraWhole O k mbs field' ecc').field = orig ∧
     (correctIntraWhole O k mbs field' ecc').corrected = true := by
-  sorry
+  unfold correctIntraWhole
+  exact repair_of_blocks O k orig field' _ hlen hcover
+    (assemble_pieces (fun _ => k) 0 mbs field' ecc' orig _ 0 0) hok
 
 end Pff.Entry
